@@ -11,7 +11,7 @@ import WtfModel.Gen.Constants
   * `recover` — recovery.RecoverFromSearchFailure (recovery.go): three substring scans with constant
     scores, first non-empty one wins; modelled exactly.
   * `cliResults` — the step in cli/search.go: the engine's answer if non-empty, otherwise the recovered
-    answer cut to `searchOptions.Limit` (`recovered[:Limit]`, a Go slice expression: it panics for a
+    answer, filtered by the platform / pipeline gate (database.FilterResults) and cut to `searchOptions.Limit` (`recovered[:Limit]`, a Go slice expression: it panics for a
     negative limit, which the CLI never passes — `cliLimit`).
 -/
 namespace Wtf.Legacy
@@ -94,14 +94,20 @@ def truncate (rc : List (Nat × S)) (limit : Int) : Except Panic (List (Nat × S
     (if limit < 0 then .error .sliceBounds else .ok (rc.take limit.toNat))
   else .ok rc
 
+/-- database.FilterResults: keep the results that pass the platform / pipeline gate of the options -/
+def filterResults (T : Tuning S) (db : Db) (o : Opts S) (rs : List (Nat × S)) : List (Nat × S) :=
+  rs.filter (fun x => match db[x.1]? with
+    | some c => passes T.ri T.host o.filter c
+    | none => false)
+
 /-- cli/search.go: `results := db.SearchUniversal(query, searchOptions)`; if that is empty, the
-    recovered results (if any) cut to `searchOptions.Limit` -/
+    recovered results that pass the platform / pipeline gate (if any) cut to `searchOptions.Limit` -/
 def cliResults (T : Tuning S) (db : Db) (q : Bytes) (o : Opts S) : Except Panic (List (Nat × S)) :=
   match search T db q o with
   | .error e => .error (.fuzzy e)
   | .ok r =>
     if !r.isEmpty then .ok r else
-    let got := recover (S := S) T.ri db q
+    let got := filterResults T db o (recover (S := S) T.ri db q)
     if !got.isEmpty then truncate got o.limit else .ok r
 
 /-- The limit the CLI puts into `searchOptions.Limit` for `--limit flag`:
